@@ -3,155 +3,7 @@ import json, os
 ROOT = os.path.dirname(os.path.dirname(os.path.abspath(__file__)))
 props = [json.loads(l) for l in open(os.path.join(ROOT, "properties.jsonl"))]
 
-CLAIMED = {
-    "C07": dict(
-        category="proof",
-        text="Deductive: compare_dicts / diff_dicts / check_keys are verified for all dictionaries against their contracts "
-             "(exact four-way verdict, absolute differences) from the real source by the pyvc VC generator + z3. "
-             "Finite data obligation: the element table agrees with the periodic table for Z = 1..118 (exhaustive). "
-             "decompose itself against RDKit's atom list is a bounded stand-in (all 118 elements, corpus molecules, mixtures).",
-        note="trusted: pyvc encoding, z3/cvc5, RDKit as definition of the true composition; bounded parts are not counted as proved",
-        technique="contract-based deductive verification (own VC generator over the real Python source, z3/cvc5) + exhaustive finite data obligations; bounded stand-in for RDKit-dependent code",
-        design="5/C07"),
-    "C08": dict(
-        category="proof",
-        text="Deductive: can_match, apply_rule (exact subtraction with ratio >= 1 on every key incl. Q), exit test, the recursive dfs "
-             "(every recorded completion sums to the imbalance, by a path-sum invariant) and match are verified for all inputs and all "
-             "rule lists satisfying the database well-formedness predicate; that predicate is discharged exhaustively for every record of "
-             "both shipped databases (composition = true composition, explicit Q, positive counts; dihalogens hit the ban list). "
-             "The real matcher is additionally run on enumerated imbalance vectors (bounded).",
-        note="trusted: pyvc encoding, z3/cvc5, PathSum congruence axiom, assumed sub-list contracts of remove_overlapping_solutions/rank_solutions (checked at run time), RDKit",
-        technique="contract-based deductive verification (own VC generator, loop/recursion invariants, z3) + exhaustive finite data obligations on the shipped rule databases",
-        design="5/C08"),
-    "C01": dict(
-        category="proof",
-        text="Deductive chain: decompose/compare contracts (compare_dicts exact Balance <=> equal total maps), Validator.check (a row becomes solved "
-             "exactly when the comparison says Balance and the carbon label says balanced; reverts and frames), MCSSearch.find / MCSBasedMethod.run / "
-             "predict frames (solved rows are not rewritten) are verified for all row lists from the real source; element table exhaustive for Z=1..118. "
-             "Stages outside the subset (preprocess, RuleBasedMethod.run, joblib maps, post-processing) carry assumed contracts that are monitored at run "
-             "time while the real Balancer runs on crafted + corpus reactions (bounded), where every solved row is re-checked with an independent oracle.",
-        note="trusted: pyvc, z3/cvc5, RDKit as the definition of composition, assumed stage contracts (monitored, not proved); one open known finding (post-processing overwrite)",
-        technique="contract-based deductive verification of the real functions (own VC generator, z3/cvc5) + run-time contract monitors and an independent oracle on bounded pipeline runs",
-        design="5/C01"),
-    "C02": dict(
-        category="other",
-        text="Deductive part: the MCS stage only appends ('prefix + .completion', impute_reaction / MCSBasedMethod.run) and Validator.check only reverts to "
-             "input_reaction. The rule-based stage's string surgery is outside the verified subset, so the property as a whole is decided by a bounded stand-in: "
-             "multiset containment of the given molecules on every row of real pipeline runs.",
-        note="bounded for the rule-based / post-processing stages; one open known finding (marker surgery)",
-        technique="contract-based deductive verification for the append-only stages; bounded stand-in (real pipeline + canonical multiset oracle) for the string surgery",
-        design="5/C02"),
-    "C03": dict(
-        category="proof",
-        text="Deductive: Validator.check with override_unsolved reverts every unsolved row to input_reaction and fills an empty issue; MCSSearch.find leaves every "
-             "unsolved row with an issue key; impute_reaction refuses rows with an issue or reactant-side carbon deficit; MCSBasedMethod.run records the failure text "
-             "and leaves the reaction alone on failure; predict touches only rows of the MCS method. Bounded: the row invariant on real pipeline runs.",
-        note="trusted: pyvc, z3/cvc5, assumed stage contracts (monitored at run time)",
-        technique="contract-based deductive verification of the row-level stage functions + run-time contract monitors on bounded pipeline runs",
-        design="5/C03"),
-    "C04": dict(
-        category="proof",
-        text="Deductive: compare_dicts says Balance exactly for equal total maps; Validator.check labels a row with its method exactly when newly solved; "
-             "find / MCSBasedMethod.run / predict do not touch solved rows; RuleBasedMethod.run's assumed contract (rows comparing Balance keep their reaction) is monitored. "
-             "Bounded: curated balanced reactions, their reversals, doubles and unions, ionic and heavy-element cases through the real Balancer.",
-        note="trusted: pyvc, z3/cvc5, RDKit, assumed stage contracts (monitored)",
-        technique="contract-based deductive verification + bounded pipeline runs with an independent balance oracle",
-        design="5/C04"),
-    "C13": dict(
-        category="proof",
-        text="Deductive: ConfidencePredictor.predict is verified for all row lists and thresholds: rows not attributed to the MCS method are untouched; a scored row "
-             "gets a confidence in [0,1], stays solved exactly when confidence >= threshold and otherwise gets solved=False and the issue text naming the threshold. "
-             "Independence of the confidence from the threshold is a syntactic frame obligation (the threshold is read in exactly two places). Bounded: threshold sweep "
-             "at observed confidences and their float neighbours on the real Balancer.",
-        note="trusted: pyvc, z3/cvc5, assumed contracts of the feature functions / xgboost (values in [0,1], function of the rows)",
-        technique="contract-based deductive verification (loop invariant over the scored sub-list) + syntactic frame check + bounded threshold sweep",
-        design="5/C13"),
-    "C05": dict(
-        category="other",
-        text="Deductive: DataLoader.__next__ is verified for all sources and batch sizes (each batch is the next consecutive slice, a short batch stops the iteration). "
-             "The rest of the chain (pandas filtering in preprocess, exception swallowing in __rebalance_batch) is outside the verified subset, so the property as a whole is decided by a "
-             "bounded stand-in: lists of valid / repeated / malformed rows at every batch size 1..n+1 in four input forms against the exact expected row correspondence. "
-             "Two open known findings (unparsable rows dropped; batch lost on a malformed string) are accepted only in their exact mechanism.",
-        note="bounded; two open known findings", technique="contract-based deductive verification of the batching iterator + bounded stand-in on the real Balancer with an exact row-correspondence oracle",
-        design="5/C05"),
-    "C06": dict(
-        category="other",
-        text="Deductive: merge_stats adds key-wise over the union of keys for all dictionaries; MCSSearch.find attaches to every row the search result that carries the row's own id "
-             "(id -> index plumbing) and Validator.check / predict / MCSBasedMethod.run are row-local by their verified postconditions. Scheduling is outside this technique, so the "
-             "relational claim itself is a bounded stand-in: every reaction alone vs permuted / partitioned batches and worker counts 1, 2, 4, statistics summed over the partition.",
-        note="bounded for the relational claim; joblib modelled as an order-preserving map", technique="contract-based deductive verification of the row-local stage functions and merge_stats + bounded alone-vs-grouped comparison",
-        design="5/C06"),
-    "C10": dict(
-        category="other",
-        text="Deductive: MCSSearch.find (every unsolved row gets the search record carrying its own id or keeps None) and the side-field synchrony established by Validator.check. "
-             "The selection step is checked on the real get_largest_condition exhaustively over small result tables (all 1-reaction tables, 2-reaction tables sampled / exhaustive in the thorough tier); "
-             "molecule multiset and substructure containment are checked on real search results, also with each substructure search cancelled in turn.",
-        note="bounded for selection, multiset and containment; RDKit trusted", technique="contract-based deductive verification of the attribution plumbing + exhaustive small-table check of the real selection function + bounded search runs with cancelled searches",
-        design="5/C10"),
-    "C11": dict(
-        category="fault_enumeration",
-        text="Fault plans are injected in-process into the real pipeline: every single search job / fragment job raising or timing out (sampled in quick), all conditions of one reaction failing, random subsets, all-fail plans; "
-             "each run is judged by the C01 / C03 row invariants, row count, and equality of the rows of reactions not hit. Deductive support: MCSBasedMethod.run catches every exception per row and records it; find leaves an issue on every unsolved row.",
-        note="faults are outcomes (raise / timeout result), not real wall-clock races; n_jobs=1", technique="contract-based deductive verification of the containment code + enumerated fault injection on the real pipeline",
-        design="5/C11"),
-    "C12": dict(
-        category="other",
-        text="Bounded: histories of runs over a shared cache directory (same / overlapping batches, thresholds, batch sizes) and simulated crash points of the cache write, each compared with the uncached run; "
-             "cache-key injectivity exhaustively over a small structured family of (batch, configuration) pairs; plus a syntactic obligation on which configuration fields reach the key.",
-        note="real kills / fsync / concurrent writers not modelled", technique="bounded stand-in (run histories, crash-state simulation, exhaustive small key-injectivity test) + syntactic frame obligation",
-        design="5/C12"),
-    "C18": dict(
-        category="other",
-        text="Deductive: predict sets confident_cnt >= 0 and leaves other statistics alone; MCSBasedMethod.run keeps mcs_solved <= mcs_applied <= rows; merge_stats is additive. "
-             "The equalities between counts and returned rows are a bounded stand-in: statistics vs rows on the real Balancer over batch sizes and thresholds incl. observed confidences and 1.0.",
-        note="bounded for the count = rows equalities", technique="contract-based deductive verification of counter bounds and merge_stats + bounded stats-vs-rows comparison",
-        design="5/C18"),
-    "C09": dict(
-        category="other",
-        text="Bounded stand-in: every acyclic single bond of hand-picked (incl. isotope-labelled, charged, hetero-atom) and corpus molecules is cut; the open fragments are produced by the "
-             "production path (find_missing_parts_pairs with the complementary fragment as common substructure, build_compounds) and given to the real merge. Two-fragment merges must give back "
-             "the molecule unless a restriction rule is reported; single-fragment completions must equal fragment + the compound of the reported expansion rule, bonded, valid, without open attachment point.",
-        note="bounded; ambiguous cuts (the kept fragment matches elsewhere) are skipped; RDKit trusted", technique="bounded stand-in on the real merge through the production fragment path",
-        design="5/C09"),
-    "C14": dict(
-        category="other",
-        text="Bounded stand-in for the relational claim: reactions (repeated molecules included) and random rewritings of them (atom order, kekulised / aromatic, atom maps, molecule order) through the real Balancer "
-             "must get the same verdict and the same added molecules (modulo the redox reagent template). The composition contracts of C07 (verdict = function of the two compositions) are the deductive support.",
-        note="bounded; one open known finding (marker-like molecules)", technique="bounded stand-in (real pipeline on equivalent spellings) supported by the C07 composition contracts",
-        design="5/C14"),
-    "C15": dict(
-        category="other",
-        text="Bounded stand-in: the real remove_atom_mapping against RDKit's map clearing on enumerated bracket atoms [iso sym chir H charge map] over 118 + 8 aromatic symbols in 13 bond contexts, "
-             "re-emitted corpus molecules (maps, explicit bonds, kekulised, explicit H, random order), mapped reactions and inputs with up to 1500 mapped atoms.",
-        note="bounded (regex replace-all chains are undecided in both string solvers); one open known finding (hypervalent explicit-H atoms)", technique="bounded stand-in against an RDKit oracle",
-        design="5/C15"),
-    "C16": dict(
-        category="other",
-        text="Bounded stand-in: is_functional_group under atom renumbering (all permutations for <= 4 atoms, random beyond) for every non-carbon atom and all 25 groups; pattern_match at every atom against "
-             "RDKit's substructure search for all pattern / anti-pattern structures, on a hand-picked group / ring family and corpus molecules.",
-        note="bounded; one open known finding (ring closure never checked / wrap-around in small rings)", technique="bounded stand-in against RDKit substructure search and renumbering",
-        design="5/C16"),
-    "C17": dict(
-        category="other",
-        text="Bounded stand-in: normalisation is idempotent and invariant under permutation and re-spelling, similarity 1 for such variants, symmetric and within [0,1] for random pairs and all three methods, "
-             "on corpus reactions and reactions built from isomer families whose canonical SMILES are anagrams.",
-        note="bounded; RDKit canonicalisation trusted", technique="bounded stand-in on the real normalize_smiles / wc_similarity",
-        design="5/C17"),
-    "C19": dict(
-        category="proof",
-        text="Deductive: the database invariant (every recorded composition with explicit Q is the composition of its SMILES; formulas pairwise distinct; SMILES pairwise distinct) is proved inductive over "
-             "add_entry (appends exactly the new entry or raises ValueError leaving the database unchanged, exactly for duplicates / invalid SMILES), add_entries (every entry added or reported) and remove_entry "
-             "(deletes exactly the named entry) for all databases and arguments, so it holds after every operation sequence. Finite data obligation: the shipped databases against that invariant (3 open data findings). "
-             "Bounded: all operation sequences of length 2 (3 in the thorough tier) and random longer ones on the real manager.",
-        note="trusted: pyvc, z3/cvc5, assumed contracts of decompose (fresh dictionary holding DEC(smiles)) and is_valid_smiles", technique="contract-based deductive verification: inductive data-structure invariant over the real edit operations + exhaustive finite data obligations",
-        design="5/C19"),
-    "C20": dict(
-        category="other",
-        text="Bounded stand-in: the real MoleculeStandardizer on enumerated enol / gem-diol / hemiketal families, plain molecules, explicit-H / isotope / atom-map spellings, mixtures and random atom orders: "
-             "parsable result, same composition, no exception or error text, idempotent. Four open known findings are accepted only for their input classes (index-adjacency heuristic, alkoxy oxygen first, explicit hydrogens on the site oxygen, several sites / charged).",
-        note="bounded; RDKit implicit-hydrogen recomputation is outside any contract here", technique="bounded stand-in on the real standardiser with a composition oracle",
-        design="5/C20"),
-}
+CLAIMED = json.load(open(os.path.join(ROOT, "tools", "claimed.json")))  # per property: category, text, note, technique, design
 
 checks = []
 for p in props:
